@@ -1,0 +1,98 @@
+//go:build verif
+
+// Package simhook contains the seams used by the deterministic simulator that
+// lives outside this repository. This file is only compiled with the "verif"
+// build tag.
+package simhook
+
+import (
+	"context"
+	"net"
+	"net/http"
+	"sync"
+	"time"
+)
+
+// Enabled reports whether the simulator hooks are compiled in.
+const Enabled = true
+
+var (
+	mx        sync.Mutex
+	firstSeen = make(map[interface{}]bool)
+
+	// PointFn, if set, is called at every named point.
+	PointFn func(site string, owner interface{}, table string)
+	// FailFn, if set, may return an error to inject at the named point.
+	FailFn func(site string, owner interface{}, table string) error
+	// MemoryFn, if set, replaces the process memory reading.
+	MemoryFn func(owner interface{}, actual uint64) uint64
+	// DialerFn, if set, supplies the dialer for outbound RPC connections.
+	DialerFn func(dest string) func(context.Context, string) (net.Conn, error)
+	// HTTPTransportFn, if set, supplies the transport for outbound HTTP.
+	HTTPTransportFn func() http.RoundTripper
+)
+
+// Pace blocks until the ticker fires or stop is closed.
+func Pace(tick <-chan time.Time, stop <-chan interface{}) {
+	select {
+	case <-tick:
+	case <-stop:
+	}
+}
+
+// FirstCall returns true for the first call with a given key and false after.
+func FirstCall(key interface{}) bool {
+	mx.Lock()
+	defer mx.Unlock()
+	if firstSeen[key] {
+		return false
+	}
+	firstSeen[key] = true
+	return true
+}
+
+// Reset forgets all FirstCall keys.
+func Reset() {
+	mx.Lock()
+	firstSeen = make(map[interface{}]bool)
+	mx.Unlock()
+}
+
+// Point reports that the calling goroutine has reached the named site.
+func Point(site string, owner interface{}, table string) {
+	if fn := PointFn; fn != nil {
+		fn(site, owner, table)
+	}
+}
+
+// Fail lets the simulator inject an error at the named site.
+func Fail(site string, owner interface{}, table string) error {
+	if fn := FailFn; fn != nil {
+		return fn(site, owner, table)
+	}
+	return nil
+}
+
+// Memory lets the simulator replace the process memory reading.
+func Memory(owner interface{}, actual uint64) uint64 {
+	if fn := MemoryFn; fn != nil {
+		return fn(owner, actual)
+	}
+	return actual
+}
+
+// Dialer returns the simulator's dialer for dest, or nil.
+func Dialer(dest string) func(context.Context, string) (net.Conn, error) {
+	if fn := DialerFn; fn != nil {
+		return fn(dest)
+	}
+	return nil
+}
+
+// HTTPTransport returns the simulator's HTTP transport, or nil.
+func HTTPTransport() http.RoundTripper {
+	if fn := HTTPTransportFn; fn != nil {
+		return fn()
+	}
+	return nil
+}
